@@ -37,12 +37,21 @@ public:
 
 	Value GetResult();
 
-private:
+protected:
 	Value m_Root;
 	std::stack<std::pair<Dictionary*, Array*>> m_CurrentSubtree;
 	String m_CurrentKey;
 
 	void FillCurrentTarget(Value value);
+};
+
+/* For documents this process wrote itself (the state file): JsonEncode() has no nesting limit, so whatever it wrote
+ * must be readable again. Never use this for input from the network. */
+class JsonSaxTrusted final : public JsonSax
+{
+public:
+	bool start_object(std::size_t elements) override;
+	bool start_array(std::size_t elements) override;
 };
 
 /* Documents nested deeper than this are rejected by JsonDecode(): the value built from them is destroyed (and
@@ -222,6 +231,17 @@ Value icinga::JsonDecode(const String& data)
 	return stateMachine.GetResult();
 }
 
+Value icinga::JsonDecodeTrusted(const String& data)
+{
+	String sanitized (Utility::ValidateUTF8(data));
+
+	JsonSaxTrusted stateMachine;
+
+	nlohmann::json::sax_parse(sanitized.Begin(), sanitized.End(), &stateMachine);
+
+	return stateMachine.GetResult();
+}
+
 inline
 bool JsonSax::null()
 {
@@ -316,6 +336,30 @@ bool JsonSax::start_array(std::size_t)
 	if (m_CurrentSubtree.size() >= l_MaxJsonNestingDepth)
 		throw std::invalid_argument("JSON document is nested too deeply.");
 
+	auto array (new Array());
+
+	FillCurrentTarget(array);
+
+	m_CurrentSubtree.push({nullptr, array});
+
+	return true;
+}
+
+inline
+bool JsonSaxTrusted::start_object(std::size_t)
+{
+	auto object (new Dictionary());
+
+	FillCurrentTarget(object);
+
+	m_CurrentSubtree.push({object, nullptr});
+
+	return true;
+}
+
+inline
+bool JsonSaxTrusted::start_array(std::size_t)
+{
 	auto array (new Array());
 
 	FillCurrentTarget(array);
